@@ -255,10 +255,8 @@ func c04RunInBubble(cs c04Case, res *c04Result) {
 		}
 		switch f.Kind {
 		case "io":
-			for _, x := range memnet.IOFaults {
-				if x.String() == f.What {
-					end.SetFault(f.K, x)
-				}
+			if x, ok := memnet.FaultByName(f.What); ok {
+				end.SetFault(f.K, x)
 			}
 		case "cancel":
 			end.SetOnOp(func(op memnet.Op) {
@@ -479,7 +477,7 @@ func c04Cases(cfg memtpt.Config, mode string, dry *c04Result, full bool) []c04Ca
 			k0 = dry.OpsConn[si]
 		}
 		for k := k0; k <= dry.Ops[si]; k++ {
-			for _, io := range memnet.IOFaults {
+			for _, io := range memtpt.IOFaultMenu() {
 				add(memtpt.Fault{Kind: "io", Side: side, K: k, What: io.String()})
 			}
 			add(memtpt.Fault{Kind: "cancel", Side: side, K: k})
@@ -507,18 +505,26 @@ func TestVerifC04Host(t *testing.T) {
 	defer memtpt.Watchdog(r, &cur)()
 
 	if p := vrep.ReplayPath(); p != "" {
+		if sh, _ := vrep.Shard(); sh != 0 {
+			return // one worker replays
+		}
 		b, err := os.ReadFile(p)
 		if err != nil {
 			r.Cap("replay: %v", err)
 			return
 		}
 		var f struct {
+			Part   string `json:"part"`
 			Replay struct {
 				Case c04Case `json:"case"`
 			} `json:"replay"`
 		}
 		if err := json.Unmarshal(b, &f); err != nil {
 			r.Cap("replay: %v", err)
+			return
+		}
+		if f.Part != "" && f.Part != r.Part {
+			fmt.Printf("C04 replay: %s belongs to part %q, not to %q - nothing to do here\n", p, f.Part, r.Part)
 			return
 		}
 		res := c04Run(t, f.Replay.Case)
@@ -547,7 +553,7 @@ func TestVerifC04Host(t *testing.T) {
 	r.Bounds["configurations"] = fmt.Sprint(cfgs)
 	r.Bounds["modes"] = fmt.Sprint(modes)
 	r.Bounds["faults_per_run"] = 1
-	r.Bounds["io_faults"] = fmt.Sprint(memnet.IOFaults)
+	r.Bounds["io_faults"] = fmt.Sprint(memtpt.IOFaultMenu())
 	shard, nshards := vrep.Shard()
 	deadline := vrep.Deadline()
 	distinct := map[string]struct{}{}
@@ -579,7 +585,8 @@ func TestVerifC04Host(t *testing.T) {
 					r.Sample(dry)
 				}
 			}
-			for _, cs := range c04Cases(cfg, mode, dry, mi == 0) {
+			// quick: the connect phase is enumerated once per configuration (mode "lazy"); thorough: in every mode
+			for _, cs := range c04Cases(cfg, mode, dry, mi == 0 || vrep.Thorough()) {
 				idx++
 				if idx%nshards != shard {
 					continue
